@@ -20,6 +20,8 @@ import vlib
 
 
 def body(c):
+    if D.handle_replay(c):
+        return
     q = c.quick
     dom = {"Syms": {0, 1, 127, 128, 255}, "MaxLen": 2 if q else 3, "LongLen": 1 if q else 2, "ModelRun": 4}
     D.model_check(c, "KeyOrder-len%d" % dom["MaxLen"], "KeyOrder_MC", D.cfg_text("Spec", dom, ["PairTheorems"]), timeout=1100)
